@@ -22,8 +22,8 @@ const ChunkSize = 1 << 20
 // Blob is one element of the content universe of a script.
 type Blob struct {
 	ID        int    `json:"id"`   // model name, >= 1; sha512 blobs have ids 1000..1999 (model: algorithm = id / 1000)
-	Alg       string `json:"alg,omitempty"` // "" = sha256, "sha512"
-	Kind      string `json:"kind"` // "raw" | "manifest"
+	Alg       string `json:"alg,omitempty"` // "" = sha256, "sha512" (ids 1000..), "sha384" (ids 2000..)
+	Kind      string `json:"kind"` // "raw" | "manifest" | "badmanifest" (manifest media type, bytes that are not JSON)
 	Size      int    `json:"size"` // raw: number of bytes
 	Fill      uint64 `json:"fill"` // raw: PRNG seed of the bytes
 	JSON      string `json:"json"` // manifest: the bytes
@@ -33,6 +33,9 @@ type Blob struct {
 func (b Blob) Content() []byte {
 	if b.Kind == "manifest" {
 		return []byte(b.JSON)
+	}
+	if b.Kind == "badmanifest" {
+		return []byte(fmt.Sprintf("{not json %d", b.Fill))
 	}
 	out := make([]byte, b.Size)
 	s := b.Fill*0x9E3779B97F4A7C15 + 77
@@ -63,6 +66,10 @@ func (b Blob) Hex() string {
 		h := sha512.Sum512(b.Content())
 		return hex.EncodeToString(h[:])
 	}
+	if b.Alg == "sha384" {
+		h := sha512.Sum384(b.Content())
+		return hex.EncodeToString(h[:])
+	}
 	h := sha256.Sum256(b.Content())
 	return hex.EncodeToString(h[:])
 }
@@ -73,7 +80,8 @@ func (b Blob) AlgName() string {
 	return b.Alg
 }
 func (b Blob) Digest() string   { return b.AlgName() + ":" + b.Hex() }
-func (b Blob) IsManifest() bool { return b.Kind == "manifest" }
+func (b Blob) IsManifest() bool  { return b.Kind == "manifest" || b.Kind == "badmanifest" }
+func (b Blob) Undecodable() bool { return b.Kind == "badmanifest" }
 
 // Op is one store operation.
 //
@@ -91,6 +99,10 @@ type Op struct {
 	Kind string `json:"kind"`
 	Blob int    `json:"blob,omitempty"`
 	Ref  int    `json:"ref,omitempty"` // tag name "t<Ref>"
+	// Variant: the descriptor handed to Tag/Delete carries digest and size only
+	// (MediaType ""), as a caller that knows just the digest would build it.  The
+	// model does not distinguish it: the blob is the same.
+	Variant bool `json:"variant,omitempty"`
 }
 
 func (o Op) String() string {
@@ -126,6 +138,8 @@ type Segment struct {
 // the last process + the operation it is interrupted in.
 type Script struct {
 	AutoGC  bool      `json:"auto_gc,omitempty"`
+	// NoAutoSave: the store runs with AutoSaveIndex = false (only SaveIndex writes index.json)
+	NoAutoSave bool `json:"no_auto_save,omitempty"`
 	Blobs   []Blob    `json:"blobs"`
 	Pre     []Segment `json:"pre,omitempty"`
 	History []Op      `json:"history"`
